@@ -29,14 +29,14 @@ Print Assumptions C05_ids_fresh.
 
 (* (3) for ALL histories, while the connection lives: streams opened upstream (in opening order) followed by streams
    waiting (in queue order) are exactly the client streams in arrival order, each once (none lost, none duplicated,
-   opened first-come-first-served), and nobody waits while the server's limit leaves room. *)
+   opened first-come-first-served), and nobody waits while the limit of the server leaves room. *)
 Theorem C05_fifo_none_lost : forall fixd fq s h, creach fixd fq s h -> dead (cc s) = false ->
   dkeys (our s) ++ dkeys (queue s) = arrivals h /\ NoDup (arrivals h) /\ (queue s = [] \/ has_free (cc s) = false).
 Proof. exact c05_fifo. Qed.
 Print Assumptions C05_fifo_none_lost.
 
-(* a stream is opened only while open_outbound_streams is below the limit (the server's MAX_CONCURRENT_STREAMS once
-   its SETTINGS arrived, 10 before), and on the library's next stream id *)
+(* a stream is opened only while open_outbound_streams is below the limit (MAX_CONCURRENT_STREAMS of the server once
+   its SETTINGS arrived, 10 before), and on the next stream id of the library *)
 Theorem C05_open_needs_capacity : forall fixd fq s h e s' o, creach fixd fq s h -> client_step fq s (IHttp e) = Ok (s', o) ->
   dget (hev_sid e) (our s) = None -> dmem (hev_sid e) (our s') = true ->
   open_outbound (ch (cc s)) < limit (cc s) /\ dget (hev_sid e) (our s') = Some (next_stream_id (ch (cc s))).
